@@ -439,7 +439,6 @@ func (tab *Table) pingpong(w *bondproc, pinged bool, id NodeID, addr *net.UDPAdd
 	go func() {
 		select {
 		case <-w.done:
-		case <-tab.bondslots:
 		case <-tab.closing:
 			ok = false
 		}
